@@ -573,6 +573,9 @@ spifopt_parse(int argc, char *argv[])
                 val_ptr = NULL;
             } else if (SPIFOPT_OPT_IS_ABSTRACT(j) && is_valid_option(val_ptr)) {
                 val_ptr = NULL;
+            } else if (SPIFOPT_OPT_IS_COUNTER(j)) {
+                /* Counters never take a value. */
+                val_ptr = NULL;
             }
         }
         if (val_ptr) {
